@@ -828,6 +828,7 @@ func sameHdrButRsv(a, b ws.Header) bool {
 //@   call Reader.fragmented inline
 //@   invoke callback:wsutil.FrameHandlerFunc assigns (&r.raw).N, r.cr.pos, instream(r.Source)
 //@   invoke callback:wsutil.FrameHandlerFunc ensures [consumed] r.raw.N >= 0 && r.raw.N <= old(r.raw.N) && inPos(r.Source) == old(inPos(r.Source))+int(old(r.raw.N)-r.raw.N) && streamOK(r.Source)
+//@   invoke callback:wsutil.FrameHandlerFunc requires [payload] c_src == iteReader(c_h.Masked, io.Reader(r.cr), io.Reader(&r.raw)) && (c_h.Masked ==> r.cr != nil && r.cr.r == io.Reader(&r.raw) && r.cr.mask == c_h.Mask && r.cr.pos == 0) && r.raw.R == r.Source && r.raw.N == c_h.Length
 //@   requires [inv]   invReader(r) && streamOK(r.Source) && r.raw.N == 0 && len(r.Extensions) <= 1 && (len(r.Extensions) == 1 ==> r.Extensions[0] != nil) && r.OnContinuation == nil
 //@   ensures  [cut]   !(inEnd(r.Source)-old(inPos(r.Source)) >= 2 && inEnd(r.Source)-old(inPos(r.Source)) >= ws.VSpecNeed(inByte(r.Source, old(inPos(r.Source))+1))) ==> err != nil
 //@   ensures  [cutfrag] len(r.Extensions) == 0 && r.OnIntermediate == nil && err == io.EOF ==> old(r.State)&ws.StateFragmented == 0
